@@ -10,6 +10,8 @@ for d in sorted(glob.glob('/verif/seeded/*/')):
     caught=[p for p,c in ex.items() if c==1]
     status='caught by '+', '.join(caught) if caught else ('MISSED' if ex else 'not run')
     if not caught and (m.get('note') or '').startswith('NOT CLAIMED'): status='not caught'
+    if not caught and (m.get('note') or '').startswith('NOT CAUGHT'): status='not caught'
+    if (m.get('note') or '').startswith('REJECTED'): status='rejected'
     what=(m.get('what_it_breaks') or '').replace('\n',' ').replace('|','/')
     if len(what)>150: what=what[:147]+'...'
     needs=(m.get('needs_to_manifest') or '').replace('\n',' ').replace('|','/')
